@@ -125,6 +125,8 @@ func (vc *VC) callModelled(st *State, o *types.Func, recv *Val, argv []Val, c *a
 		return one(v)
 	case "binary.bigEndian.PutUint16", "binary.bigEndian.PutUint32", "binary.bigEndian.PutUint64":
 		trusted()
+		vc.bytesCtx++
+		defer func() { vc.bytesCtx-- }()
 		n := map[string]int64{"binary.bigEndian.PutUint16": 2, "binary.bigEndian.PutUint32": 4, "binary.bigEndian.PutUint64": 8}[key]
 		// destination must be an lvalue-ish expression; handle x[:] of small array, and slice lvalues / reslices
 		dst := c.Args[0]
